@@ -17,12 +17,18 @@ import (
 
 type symFloat struct{ opaque string }
 
+// symToFloat: a symbolic integer converted to floating point becomes an opaque float. It can be
+// stored, passed, combined arithmetically and returned; any branch or integer conversion on it
+// ends the path as unsupported.
 func (i *interpreter) symToFloat(fr *frame, x sv, dk types.BasicKind) value {
-	panic(unsupported("conversion of a symbolic integer to floating point"))
+	return symFloat{"float(" + x.t.String() + ")"}
 }
 
 func (i *interpreter) convFloat(fr *frame, x symFloat, t types.Type) value {
-	panic(unsupported("symbolic float"))
+	if b, ok := t.Underlying().(*types.Basic); ok && b.Info()&types.IsFloat != 0 {
+		return x
+	}
+	panic(unsupported("conversion of an opaque (symbolic) float to " + t.String()))
 }
 
 func goString(v value) string {
@@ -81,6 +87,14 @@ func (i *interpreter) intrinsic(fr *frame, fn *ssa.Function, name string, args [
 		if r, ok := i.verifIntrinsic(fr, short, args); ok {
 			return r, true
 		}
+	}
+	if name == "github.com/biogo/biogo/alphabet.Ephred" || name == "github.com/biogo/biogo/alphabet.Esolexa" {
+		if _, opaque := args[0].(symFloat); opaque {
+			// model: the quality of an opaque probability is an unconstrained score
+			i.ex.opaqueQ++
+			return i.nondet(fr, fmt.Sprintf("opaque_quality_%d", i.ex.opaqueQ), 0, 255, types.Uint8), true
+		}
+		return nil, false
 	}
 	if f, ok := stdIntrinsics[name]; ok {
 		return f(fr, args), true
